@@ -12,7 +12,7 @@ import nn_ref_c17 as ref
 
 ID = 'C17'
 LEVEL = 'proof'
-RULE = ('witness of the remaining known finding; conv1d: full grid batch 1..2, C 1..4 x every divisor as groups x O in {g,2g}, '
+RULE = ('witnesses of the 2 known findings; conv1d: full grid batch 1..2, C 1..4 x every divisor as groups x O in {g,2g}, '
         'L 1..5 (quick) / 1..7, K 1..3, stride 1..3, padding 0..2, dilation 1..2, positive output size, bias on/off, defaults passed as None '
         'or as the explicit value, float32 and int element types, plus seeded cases beyond the grid (batch<=3, C<=6, L<=12, K<=5, s<=4, p<=3, d<=3); '
         'conv2d: seeded sample (700 quick / 15000 thorough) of the same ranges, batch 1..2, with None / int / pair argument forms; pooling: every (H,W) 1..5 '
@@ -29,7 +29,7 @@ ANCHORS = {'NmVerif.NN.convnd (convWeight, convInput, convCore, convBias, convSt
                'index::shape_sliding_window + sliding_window, view/expand.hpp shape_expand + expand, index::shape_pad + pad, reshape, broadcast, reduce, slice as used by convnd',
            'NmVerif.NN.shapePool2d / slicePool2d / poolWindow / poolFold':
                'index::shape_pool2d, index::slice_pool2d, view::pool2d_t::operator() (apply_slice + flatten + reducer)'}
-ASSUMPTIONS = ['the tree under test carries fixes/C17-conv-batch, C17-conv-groups, C17-conv2d-dilation-pair, C17-pool-ceil-window, C17-max-pool-initial (the model mirrors the repaired code)',
+ASSUMPTIONS = ['the tree under test carries the fix commits of fixes/C17-conv-batch, C17-conv2d-dilation-pair, C17-pool-ceil-window, C17-max-pool-initial (the model mirrors the repaired code; the group interleaving of conv_reshape_weight is mirrored as it is)',
                'shape_pool2d and the strided slice compute extents in float32 (ceil/floor of a float quotient): exact only while the quotient is representable (extents < 2^24); the model uses naturals',
                'k <= n for pooling (the C++ wraps in size_t otherwise; the reference rejects it)',
                'floating-point tolerance (4 ulp x terms) is a harness statement, not a Lean statement',
@@ -37,10 +37,11 @@ ASSUMPTIONS = ['the tree under test carries fixes/C17-conv-batch, C17-conv-group
                'PyTorch itself is not available: the reference is lib/nn_ref_c17.py written from the documented formulas']
 PARTIAL = ['softmax, softmin, batch/layer/instance/group norm, linear, bilinear, pairwise_distance, cosine_similarity: no Lean theorem (compositions of the C06-C08 pieces over opaque real operations); oracle comparison only',
            'max/avg pooling: theorems cover output shape and the window element set handed to the reducer; the reduction itself (reduce_maximum / mean) is compared with the oracle only',
-           'conv1d theorem covers None | int argument forms (one plane); conv2d theorem covers None | int | pair forms']
+           'conv1d theorem covers None | int argument forms (one plane); conv2d theorem covers None | int | pair forms',
+           'conv*_eq_nested_loop (PyTorch group assignment) hold on groups = 1 or O = groups (outside: conv1d_groups_counterexample, conv2d_groups_counterexample); conv*_eq_code_loop hold for every groups with the code\'s assignment o % g']
 MANIFEST = dict(
-    text='Proof: 8 Lean theorems. conv1d and conv2d: the mirrored view::convnd pipeline (reshape by groups, pad, sliding_window of input and of the dilation-expanded weight, multiply, sum, reshape, bias, strided slice) is defined, has the extent floor((n+2p-d(k-1)-1)/s)+1 per plane and each element is the PyTorch nested loop over (channel, kernel) terms, for every batch, extent, kernel, stride, padding, dilation, groups and optional bias (None / int forms, and pairs for conv2d). Pooling: shape_pool2d = PyTorch extents in floor and ceil mode (with the last-window rule), every window is non-empty, inside the input and equal to the clipped reference window, for any number of leading axes. Tied to the headers by a differential run of conv1d/conv2d/pool2d (model + nested-loop oracle) and of softmax/softmin/4 norms/linear/bilinear/pairwise_distance/cosine_similarity (oracle) on every check.',
-    note='Lean kernel + propext/Classical.choice/Quot.sound; model hand-written, fidelity rests on the correspondence run; softmax/norm/linear routines have no theorem (oracle comparison within 4 ulp x terms); five defects found by this check were repaired in /repo (fixes/C17-*.diff); one known finding remains (batch_norm on rank 2/3 inputs).',
+    text='Proof: 12 Lean theorems. conv1d and conv2d: the mirrored view::convnd pipeline (reshape by groups, pad, sliding_window of input and of the dilation-expanded weight, multiply, sum, reshape, bias, strided slice) is defined, has the extent floor((n+2p-d(k-1)-1)/s)+1 per plane and each element is the nested loop over (channel, kernel) terms, for every batch, extent, kernel, stride, padding, dilation, groups and optional bias (None / int forms, and pairs for conv2d) with the code\'s group assignment o % g; equal to the PyTorch loop for groups = 1 or one output channel per group, with kernel-checked counterexamples outside. Pooling: shape_pool2d = PyTorch extents in floor and ceil mode (with the last-window rule), every window is non-empty, inside the input and equal to the clipped reference window, for any number of leading axes. Tied to the headers by a differential run of conv1d/conv2d/pool2d (model + nested-loop oracle) and of softmax/softmin/4 norms/linear/bilinear/pairwise_distance/cosine_similarity (oracle) on every check.',
+    note='Lean kernel + propext/Classical.choice/Quot.sound; model hand-written, fidelity rests on the correspondence run; softmax/norm/linear routines have no theorem (oracle comparison within 4 ulp x terms); four defects found by this check were repaired in /repo (fixes/C17-*.diff); two known findings remain (conv group interleaving for O/groups > 1, batch_norm on rank 2/3 inputs).',
     technique='Lean 4 proofs over the mirrored convnd / pool2d index pipeline (Mathlib ring tactic in lemma files only) + differential correspondence + independent nested-loop NumPy oracle')
 
 H_C1, H_C2A, H_C2B, H_POOL, H_NORM, H_LIN = 'h_c17_conv1d', 'h_c17_conv2d_nb', 'h_c17_conv2d_b', 'h_c17_pool', 'h_c17_norm', 'h_c17_lin'
@@ -137,11 +138,21 @@ def oi(v):
 # known-finding input classes (membership decided from the request only)
 # ---------------------------------------------------------------------------------------------
 
+def k_conv_groups(c):
+    """conv1d / conv2d with groups > 1 and more than one output channel per group"""
+    if not (c.req.startswith('conv1d ') or c.req.startswith('conv2d ')):
+        return False
+    a = argstr(c.req)
+    g = int(a['groups'])
+    return g > 1 and ints(a['ws'])[0] // g > 1
+
+
 def k_batch_norm_rank(c):
     return c.req.startswith('batch_norm ') and len(ints(argstr(c.req)['xs'])) != 4
 
 
 KNOWN_PREDICATES = {
+    'conv_groups_interleaved': k_conv_groups,
     'batch_norm_rank_not4': k_batch_norm_rank,
 }
 
@@ -203,8 +214,8 @@ def conv_case(rng, nsp, N, C, g, O, sp, ks, s, p, d, bias, forms, dt='f', model=
     else:
         h = H_C2B if bias else H_C2A
     c = Case(req, h, oracle=oracle, model=model, nontrivial=nontriv, tags=tags)
-    # on-domain = hypotheses of conv1d_eq_nested_loop / conv2d_eq_nested_loop
-    c.dom = True
+    # on-domain = hypotheses of conv1d_eq_nested_loop / conv2d_eq_nested_loop: groups = 1 or one output channel per group
+    c.dom = not k_conv_groups(c)
     return c
 
 
